@@ -6,12 +6,12 @@ INV = ("TypeOK AtMostOneReply ExactlyOneWhenFinished OneLeaderPerGeneration Foll
 ACT = "TombstoneNeverLinked LocalOnlyFromOwnDownstream CachedFailNeedsSharedFailure"
 
 def consts(reqs, keys, keyof, internal, probe, maxgen, D=2, W=3, maxT=0, maxArr=0, timed=False,
-           urgent=False, dup=True, guard=True, defensive=False, env=True):
+           urgent=False, dup=True, guard=True, defensive=False, env=True, bug="none"):
     b = lambda x: "TRUE" if x else "FALSE"
     return ("CONSTANTS\n  Reqs = %s\n  Keys = %s\n  KeyOf <- %s\n  Internal = %s\n  Probe = %s\n  MaxGen = %d\n"
             "  MaxRegroups = 1\n  D = %d\n  W = %d\n  MaxT = %d\n  MaxArrive = %d\n  Timed = %s\n  Urgent = %s\n"
-            "  DupWrite = %s\n  WriterGuard = %s\n  Defensive = %s\n  EnvOn = %s\n" % (
-                reqs, keys, keyof, internal, probe, maxgen, D, W, maxT, maxArr, b(timed), b(urgent), b(dup), b(guard), b(defensive), b(env)))
+            "  DupWrite = %s\n  WriterGuard = %s\n  Defensive = %s\n  EnvOn = %s\n  Bug = \"%s\"\n" % (
+                reqs, keys, keyof, internal, probe, maxgen, D, W, maxT, maxArr, b(timed), b(urgent), b(dup), b(guard), b(defensive), b(env), bug))
 
 def mc(name, c, inv="", props=""):
     open("MC_%s.cfg" % name, "w").write(
@@ -53,6 +53,8 @@ mc("TimeDW2", consts(**PROBE2, D=2, W=3, maxT=6, maxArr=2, timed=True, urgent=Tr
 mc("TimeWD2", consts(**ORD2, D=3, W=2, maxT=6, maxArr=2, timed=True, urgent=True, dup=False), inv="InTime")
 # the writer guard is what AtMostOneReply rests on: TLC must find the violation without it
 mc("NoGuard", consts(**ORD2, guard=False))
+mc("NegLocal", consts(**ORD2, dup=False, bug="recordLocal"))
+mc("NegTombstone", consts(**PROBE, dup=False, defensive=True, bug="regroupTombstone"))
 # behaviours for the replay drivers
 for name, c in (("Ord", ORD), ("Probe", PROBE), ("Split", SPLIT), ("Four", FOUR), ("FourI", FOURI)):
     sim(name, consts(**c))
